@@ -76,28 +76,44 @@ def check_case(case, res: Result):
         def in_repeatable(n):
             return isinstance(n, (p.AlarmNode,)) or any(isinstance(a, (p.AlarmNode, p.MacroNode)) for a in n.parents)
 
-        def in_scope_with_nested_interrupt(n):
-            """n lies inside (or is) a repeatable scope (Alarm, Macro) whose body contains a further Watch/Alarm: the
-            nested interrupt is not cancelled when the enclosing scope is reset for its next invocation."""
-            chain = [n] + list(n.parents)
+        macro_defs: dict[str, list] = {}
+        for nn in prog.get_all_nodes():
+            if isinstance(nn, p.MacroNode):
+                macro_defs.setdefault(nn.macro_name, []).append(nn)
+
+        def taint_scope(r):
+            """Everything that can be affected by resetting r while it is in progress: the outermost repeatable scope
+            (Alarm / Macro) around r, plus - transitively - the bodies of the macros called from inside it."""
+            chain = [r] + list(r.parents)
             outer = [a for a in chain if isinstance(a, (p.AlarmNode, p.MacroNode))]
-            for a in outer:
-                if any(isinstance(d, p.NodeWithCondition) for d in a.get_child_nodes(recursive=True)):
-                    return True
-            return False
+            top = outer[-1] if outer else r
+            out, todo = set(), [top]
+            while todo:
+                t = todo.pop()
+                sub = [t] + (t.get_child_nodes(recursive=True) if isinstance(t, p.NodeWithChildren) else [])
+                for d in sub:
+                    if id(d) in out:
+                        continue
+                    out.add(id(d))
+                    if isinstance(d, p.CallMacroNode):
+                        todo.extend(m for m in macro_defs.get(d.macro_name, []) if id(m) not in out)
+            return out
+
+        tainted: set[int] = set()
+        st: dict[int, dict] = {}
+
+        def state(pid):
+            return st.setdefault(pid, {"started": False, "completed": False, "failed": False})
 
         def V(mech, msg, n, sib=None):
             mac = next((a for a in [n] + list(n.parents) if isinstance(a, p.MacroNode)), None)
-            if mac is not None and max_active.get(mac.macro_name, 0) >= 2:
+            if id(n) in tainted or (sib is not None and id(sib) in tainted):
+                # root cause seen earlier in this run: an Alarm re-arm / repeated macro call reset body nodes that
+                # were still in progress (nested interrupt, stale handler, multi-tick command)
+                mech = "C02.scope_reset_while_line_in_progress"
+            elif mac is not None and max_active.get(mac.macro_name, 0) >= 2:
                 # two calls of one macro in progress at once (main path + interrupt): both walk the same body nodes
                 mech = "C02.concurrent_calls_share_macro_body"
-            elif in_scope_with_nested_interrupt(n):
-                mech = "C02.interrupt_survives_reset_of_enclosing_scope"
-            elif sib is not None and isinstance(sib, (p.UodCommandNode, p.EngineCommandNode)) and in_repeatable(sib) \
-                    and any(e[6] == id(sib) and e[1] == "completed" and e[5] is True and
-                            not _state_at(trace, id(sib), e)["started"] for e in trace):
-                # completion of a still-running command of the previous invocation arrives after the reset
-                mech = "C02.async_completion_leaks_into_next_invocation"
             viol.append((mech, msg))
 
         def short_wait(n):
@@ -109,18 +125,9 @@ def check_case(case, res: Result):
         active_calls: dict[str, int] = {}
         ever_started: set[int] = set()
         max_active: dict[str, int] = {}
-        _act: dict[str, int] = {}
-        for e in trace:
-            nn = nodes.get(e[6])
-            if isinstance(nn, p.CallMacroNode):
-                if e[1] == "started" and e[5] is True:
-                    _act[nn.macro_name] = _act.get(nn.macro_name, 0) + 1
-                    max_active[nn.macro_name] = max(max_active.get(nn.macro_name, 0), _act[nn.macro_name])
-                elif e[1] == "completed" and e[5] is True or e[1] == "started" and e[5] is False and e[4] is True \
-                        and not _state_at(trace, e[6], e)["completed"]:
-                    _act[nn.macro_name] = max(0, _act.get(nn.macro_name, 0) - 1)
+        ended_blocks: set[int] = set()
 
-        # ---- rule 1: at most one start per node per epoch
+        # ---- single pass over the trace with incrementally maintained node state
         last_started_idx: dict[int, int] = {}
         started_nodes = 0
         for ev in trace:
@@ -130,24 +137,45 @@ def check_case(case, res: Result):
             n = nodes.get(pid)
             if n is None:
                 continue
+            s_n = state(pid)
             if field == "restarted":
                 res.count("restart_events")
                 if not isinstance(n, (p.WatchNode, p.AlarmNode, p.WhitespaceNode, p.ProgramNode)):
                     V("C02.second_visit_of_started_node", f"node {nid} {cls} visited again while started (tick {tick})", n)
+            elif field == "block_ended" and new is True:
+                ended_blocks.add(pid)
+            elif field == "block_ended" and new is False:
+                ended_blocks.discard(pid)
+            elif field in ("completed", "failed"):
+                if field == "completed" and new is True and isinstance(n, p.CallMacroNode):
+                    active_calls[n.macro_name] = active_calls.get(n.macro_name, 0) - 1
+                if field == "completed" and new is True and not s_n["started"] and in_repeatable(n) \
+                        and isinstance(n, (p.UodCommandNode, p.EngineCommandNode)):
+                    # completion of a command of the previous invocation arriving after the reset
+                    res.count("late_completions_after_reset")
+                    tainted |= taint_scope(n)
+                s_n[field] = new
             elif field == "started" and new is False:
                 if not (in_repeatable(n) or isinstance(n, (p.WhitespaceNode, p.MacroNode))):
                     V("C02.reset_outside_repeatable_scope", f"node {nid} {cls} reset to not-started at tick {tick}", n)
+                if s_n["started"] and not s_n["completed"] and not s_n["failed"] \
+                        and not isinstance(n, (p.WhitespaceNode, p.MacroNode)):
+                    res.count("in_progress_resets")
+                    tainted |= taint_scope(n)
+                    if isinstance(n, p.CallMacroNode):
+                        active_calls[n.macro_name] = active_calls.get(n.macro_name, 0) - 1
+                s_n["started"] = False
                 if isinstance(n, p.NodeWithChildren):
                     last_started_idx[pid] = -1
             elif field == "child_index" and new == 0:
                 last_started_idx[pid] = -1
-            elif field == "completed" and new is True and isinstance(n, p.CallMacroNode):
-                active_calls[n.macro_name] = active_calls.get(n.macro_name, 0) - 1
             elif field == "started" and new is True:
+                s_n["started"] = True
                 res.count("start_events")
                 started_nodes += 1
                 if isinstance(n, p.CallMacroNode):
-                    active_calls[n.macro_name] = active_calls.get(n.macro_name, 0) + 1
+                    c = active_calls[n.macro_name] = active_calls.get(n.macro_name, 0) + 1
+                    max_active[n.macro_name] = max(max_active.get(n.macro_name, 0), c)
                 par = n.parent
                 if par is None:
                     continue
@@ -161,7 +189,7 @@ def check_case(case, res: Result):
                     if active_calls.get(par.macro_name, 0) <= 0:
                         V("C02.macro_body_line_without_call", f"{nid} {cls} started at tick {tick} with no call of "
                           f"macro {par.macro_name} in progress", n)
-                elif not _state_at(trace, id(par), ev)["started"]:
+                elif not state(id(par))["started"]:
                     V("C02.child_before_parent", f"{nid} {cls} started at tick {tick} before its parent {par.id}", n)
                 idx = list(par.children).index(n)
                 prev = last_started_idx.get(id(par), -1)
@@ -172,21 +200,20 @@ def check_case(case, res: Result):
                 last_started_idx[id(par)] = max(prev, idx)
                 # rule 2: previous sibling done
                 if idx > 0 and not isinstance(n, p.WhitespaceNode):
-                    j = idx - 1
-                    sib = par.children[j]
-                    # state of the sibling *now* is later than at the event; use events so far instead
-                    st = _state_at(trace, id(sib), ev)
+                    sib = par.children[idx - 1]
+                    ss = state(id(sib))
                     if type(sib).__name__ in SYNC and not isinstance(sib, (p.WhitespaceNode, p.MacroNode)) \
                             and not short_wait(sib):
-                        if not (st["completed"] or st["failed"]):
-                            # a Block/other sync node that was skipped entirely (never started) because its block ended
-                            if st["started"] or not _in_ended_block(trace, sib, ev, nodes):
+                        if not (ss["completed"] or ss["failed"]):
+                            # a sync node that was skipped entirely (never started) because its block had ended
+                            in_ended = any(id(a) in ended_blocks for a in sib.parents if isinstance(a, p.BlockNode))
+                            if ss["started"] or not in_ended:
                                 V("C02.started_before_predecessor_completed",
                                   f"{nid} started at tick {tick} while predecessor {sib.id} ({type(sib).__name__}) "
-                                  f"started={st['started']} completed={st['completed']}", n)
+                                  f"started={ss['started']} completed={ss['completed']}", n, sib)
                     elif not isinstance(sib, (p.WhitespaceNode, p.MacroNode)):
                         # Watch/Alarm predecessors are reset by their own re-arm: 'has started at some point' is enough
-                        if not st["started"] and not st["failed"] and not (
+                        if not ss["started"] and not ss["failed"] and not ss["completed"] and not (
                                 isinstance(sib, p.NodeWithCondition) and id(sib) in ever_started):
                             V("C02.started_before_predecessor_started",
                               f"{nid} started at tick {tick} but predecessor {sib.id} never started", n, sib)
@@ -263,27 +290,6 @@ def check_case(case, res: Result):
             continue
         seen.add((mech, msg))
         res.violation(mech, msg, case)
-
-
-def _state_at(trace, pid, upto_ev):
-    st = {"started": False, "completed": False, "failed": False}
-    for ev in trace:
-        if ev is upto_ev:
-            break
-        if ev[6] == pid and ev[1] in st:
-            st[ev[1]] = ev[5]
-    return st
-
-
-def _in_ended_block(trace, node, upto_ev, nodes):
-    import openpectus.lang.model.ast as p
-    blocks = {id(a) for a in node.parents if isinstance(a, p.BlockNode)}
-    for ev in trace:
-        if ev is upto_ev:
-            break
-        if ev[1] == "block_ended" and ev[5] is True and ev[6] in blocks:
-            return True
-    return False
 
 
 def run_shard(spec):
